@@ -509,7 +509,7 @@ DEFAULT_COQ_TARGETS = ("theories/Replay.vo", "theories/Discipline.vo", "theories
 
 # T0 facts that matter to a few properties only (label fragment -> properties); every other
 # fact is part of the syscall-level model and matters to all properties that use the model
-T0_SCOPE = [("error id range", {"C16"}), ("ErrorKind::errno", {"C16", "C17"}), ("errno arm", {"C16", "C17"}),
+T0_SCOPE = [("system-call inventory", {"C05"}), ("error id range", {"C16"}), ("ErrorKind::errno", {"C16", "C17"}), ("errno arm", {"C16", "C17"}),
             ("OsError arm", {"C16", "C17"}), ("mknod", {"C14", "C17"}), ("PATHRS_PROC", {"C17", "C18"}),
             ("mkdir_all mode masks", {"C12", "C17"})]
 MODEL_FREE = {"C16", "C18"}
